@@ -227,5 +227,27 @@ theorem zero_gap_without_cover :
     custody (step (.undelegate 10 0 1 20) wDrift).2 1 = 10 := by
   refine ⟨by decide +kernel, by decide +kernel, by decide +kernel⟩
 
+
+/-- the converse of D23: where the asset's share total has NOT drifted below the validators' sum (Σ vs ≤ TotalValidatorShares) the
+    validators' token values add up to at most the staked total plus n roundings of the conversion — no reported balance can
+    exceed the staked total by more than that. The drift of D13 is exactly what D23 needs -/
+theorem validator_values_add_up_to_at_most_the_total (a : Asset) (hT : 0 ≤ a.totalTokens) (hTVS : 0 < a.totalValShares)
+    (infos : List ValInfo) (hvs : ∀ i ∈ infos, 0 ≤ valSharesWithDenom i a.denom)
+    (hsum : (infos.map (fun i => valSharesWithDenom i a.denom)).sum ≤ a.totalValShares) :
+    (infos.map (fun i => totalTokensWithAsset i a)).sum * (P * P * a.totalValShares) ≤
+      a.totalValShares * ofInt a.totalTokens * (P * P) +
+      (infos.length : Int) * ((H + 1) * a.totalValShares * ofInt a.totalTokens + H * P * a.totalValShares) :=
+  validator_values_sum_le_total a hT hTVS infos hvs hsum
+
+/-- … and within a validator: positions whose shares add up to the validator's delegator-share total (the ledger) are worth, before
+    the final `+ 0.01` and truncation, at most the validator's value plus n roundings -/
+theorem position_values_add_up_to_at_most_the_validator (tds V : Dec) (hV : 0 ≤ V) (htds : 0 < tds) (shares : List Dec)
+    (hs : ∀ x ∈ shares, 0 ≤ x) (hsum : shares.sum = tds) :
+    (shares.map (fun x => convertNewShareToDecToken V tds x)).sum * (P * P * tds) ≤
+      tds * V * (P * P) + (shares.length : Int) * ((H + 1) * tds * V + H * P * tds) := by
+  have := position_values_sum tds V hV htds shares hs
+  rw [hsum] at this
+  exact this
+
 end C03
 end Alliance
